@@ -32,7 +32,10 @@ func (hl *HashLiteral) String() string {
 
 	var out bytes.Buffer
 	pairs := make([]string, 0)
-	for key, value := range hl.Pairs {
+	// In the order the pairs were written: the printed form must not
+	// depend upon the order in which a map is walked.
+	for _, key := range hl.Keys {
+		value := hl.Pairs[key]
 		if key != nil && value != nil {
 			pairs = append(pairs, key.String()+":"+value.String())
 		}
